@@ -37,6 +37,10 @@ def KeySet.has (m : KeySet) (key : Bytes) (p : Perm) : Bool := HyperModel.Perm.h
 /-- `fullAccess.Has` (`state.CompletePermissions`) -/
 def fullAccess (_ : Bytes) (_ : Perm) : Bool := true
 
+/-- `SimulatedKeys.Has(key, perm)`: records the access with `Keys.Add` — whose result it
+ignores — and always answers true. -/
+def simulatedHas (m : KeySet) (key : Bytes) (p : Perm) : KeySet × Bool := ((m.add key p).1, true)
+
 /-- The inner loop of `Transaction.StateKeys`: `for k, v := range decl { if !stateKeys.Add(k, v)
 { return nil, ErrInvalidKeyValue } }`; `none` = the error return. -/
 def addAll (m : KeySet) : List (Bytes × Perm) → Option KeySet
